@@ -74,6 +74,7 @@ fn main() {
     });
     run.sample(json!({"part": "file_level", "label": docs[100].1, "doc": doc_to_json(&docs[100].0)}));
     incremental(&run);
+    resave(&run);
     run.exhaustive(true);
     run.finish();
 }
@@ -233,12 +234,111 @@ fn incremental(run: &Run) {
     run.sample(json!({"part": "incremental", "base": 1, "table": false, "chain": [{"replace": [0, 2], "add": 2, "seed": 11}, {"replace": [1], "add": 1, "seed": 105}]}));
 }
 
+// ---------------------------------------------------------------------------------------------
+// repeated saves of the SAME Document value (the writer keeps state in it: max_id, trailer)
+
+const RESAVE_OPS: [&str; 6] = ["save_table", "save_stream", "renumber", "add_object", "delete_last", "renumber_with_3"];
+
+/// Apply the op sequence to one Document; every save must be strictly valid and recover the
+/// document as it is at that moment.
+fn run_resave(base: &Document, ops: &[usize]) -> Result<u64, String> {
+    let mut doc = base.clone();
+    let mut saves = 0;
+    for (step, op) in ops.iter().enumerate() {
+        match RESAVE_OPS[*op] {
+            "save_table" | "save_stream" => {
+                let table = RESAVE_OPS[*op] == "save_table";
+                util::set_xref(&mut doc, table);
+                let snapshot = doc.clone();
+                let mut out = vec![];
+                match util::guard(|| doc.save_to(&mut out)) {
+                    Ok(Ok(())) => {}
+                    Ok(Err(e)) => return Err(format!("step {}: save error {}", step, e)),
+                    Err(p) => return Err(p),
+                }
+                saves += 1;
+                let view = strict_reader(&out, &snapshot).map_err(|e| format!("step {} ({}): {}", step, RESAVE_OPS[*op], e))?;
+                if let Some(m) = cmp::diff_objects(&snapshot.objects, &view.objects) {
+                    return Err(format!("step {} ({}): {}", step, RESAVE_OPS[*op], m));
+                }
+                let mut want = snapshot.trailer.clone();
+                for k in cmp::XREF_BOOKKEEPING {
+                    want.remove(k);
+                }
+                if let Some(m) = cmp::diff_trailer(&want, &view.trailer) {
+                    return Err(format!("step {} ({}): {}", step, RESAVE_OPS[*op], m));
+                }
+            }
+            "renumber" => doc.renumber_objects(),
+            "renumber_with_3" => doc.renumber_objects_with(3),
+            "add_object" => {
+                doc.add_object(Object::Array(vec![Object::Integer(step as i64), Object::string_literal("added")]));
+            }
+            _ => {
+                // delete the object with the largest number that is not referenced by the trailer
+                let root = doc.trailer.get(b"Root").and_then(Object::as_reference).ok();
+                let victim = doc.objects.keys().rev().find(|id| Some(**id) != root).cloned();
+                if let Some(v) = victim {
+                    doc.objects.remove(&v);
+                }
+            }
+        }
+    }
+    Ok(saves)
+}
+
+fn resave(run: &Run) {
+    let bases = docgen::start_docs();
+    let depth = if run.thorough { 5 } else { 4 };
+    let mut seqs: Vec<Vec<usize>> = vec![];
+    let mut level: Vec<Vec<usize>> = vec![vec![]];
+    for _ in 0..depth {
+        let mut next = vec![];
+        for sq in &level {
+            for op in 0..RESAVE_OPS.len() {
+                let mut s2 = sq.clone();
+                s2.push(op);
+                next.push(s2);
+            }
+        }
+        // only sequences that end in a save are checked (prefixes are covered by shorter ones)
+        seqs.extend(next.iter().filter(|s| *s.last().unwrap() <= 1).cloned());
+        level = next;
+    }
+    let nb = if run.thorough { 6 } else { 3 };
+    run.add("resave_sequences", (seqs.len() * nb) as u64);
+    run.nontrivial((seqs.len() * nb) as u64);
+    util::par_for(seqs.len(), |i| {
+        for (bi, base) in bases.iter().take(nb).enumerate() {
+            match run_resave(base, &seqs[i]) {
+                Ok(n) => {
+                    run.eval(n);
+                    run.add("files_resave", n);
+                }
+                Err(m) => run.fail(
+                    None,
+                    json!({"kind": "resave", "base": bi, "ops": seqs[i].iter().map(|o| RESAVE_OPS[*o]).collect::<Vec<_>>()}),
+                    &m,
+                    "every save of the same Document value is a valid file that recovers the document as it is at that moment",
+                ),
+            }
+        }
+    });
+    run.sample(json!({"part": "resave", "base": 0, "ops": ["save_stream", "renumber", "save_stream"]}));
+}
+
 fn replay(run: &Run, path: &std::path::Path) -> ! {
     let case = vharness::run::read_replay(path);
     let table = case["table"].as_bool().unwrap_or(true);
     let res: Option<String> = match case["kind"].as_str() {
         Some("item") => check_single_with(&obj_from_json(&case["item"]), table, strict_reader),
         Some("doc") => check_doc_with(&doc_from_json(&case["doc"]), table, strict_reader),
+        Some("resave") => {
+            let bases = docgen::start_docs();
+            let base = &bases[case["base"].as_u64().unwrap() as usize];
+            let ops: Vec<usize> = case["ops"].as_array().unwrap().iter().map(|o| RESAVE_OPS.iter().position(|x| Some(*x) == o.as_str()).unwrap()).collect();
+            run_resave(base, &ops).err()
+        }
         Some("incremental") => {
             let bases = docgen::start_docs();
             let base = &bases[case["base"].as_u64().unwrap() as usize];
